@@ -301,6 +301,9 @@ func (x *Exec) assumeTypeInv(st *State, v Val) {
 		if l.IsRef && !strings.HasPrefix(t, "#x") {
 			facts = append(facts, app("bvult", t, st.alloc))
 		}
+		if l.Sort == SStr && t != "str.empty" {
+			facts = append(facts, app("bvule", app("slen", t), "#x0000010000000000"))
+		}
 	}
 	if len(facts) > 0 {
 		x.smt.Assert(implies(st.pc, and(facts...)))
